@@ -37,30 +37,81 @@ impl PanicInfo {
     }
 }
 
-/// digits -> N, collapse whitespace, cut to 140 chars.
+/// Normalise a panic message into a call-site signature: digits -> N, slot names -> $S, contents of brackets / braces /
+/// quotes / backticks dropped, whitespace collapsed, cut to 90 chars. (Messages embed slot names, ids and user text.)
 pub fn normalize(m: &str) -> String {
     let mut out = String::new();
+    let mut depth = 0i32; // inside [...] or {...}
+    let mut quote: Option<char> = None;
     let mut in_num = false;
+    let mut in_slot = false;
     let mut last_ws = false;
     for c in m.chars() {
-        if c.is_ascii_digit() {
-            if !in_num {
-                out.push('N');
+        if let Some(q) = quote {
+            if c == q {
+                quote = None;
+                out.push(q);
             }
-            in_num = true;
-            last_ws = false;
-        } else if c.is_whitespace() {
-            in_num = false;
-            if !last_ws {
-                out.push(' ');
-            }
-            last_ws = true;
-        } else {
-            in_num = false;
-            last_ws = false;
-            out.push(c);
+            continue;
         }
-        if out.len() > 140 {
+        if depth > 0 {
+            if c == '[' || c == '{' {
+                depth += 1;
+            } else if c == ']' || c == '}' {
+                depth -= 1;
+                if depth == 0 {
+                    out.push_str("..");
+                    out.push(c);
+                }
+            }
+            continue;
+        }
+        if in_slot {
+            if c.is_alphanumeric() || c == '_' {
+                continue;
+            }
+            in_slot = false;
+        }
+        match c {
+            '[' | '{' => {
+                depth = 1;
+                out.push(c);
+                in_num = false;
+                last_ws = false;
+            }
+            '"' | '`' => {
+                quote = Some(c);
+                out.push(c);
+                in_num = false;
+                last_ws = false;
+            }
+            '$' => {
+                out.push_str("$S");
+                in_slot = true;
+                in_num = false;
+                last_ws = false;
+            }
+            c if c.is_ascii_digit() => {
+                if !in_num {
+                    out.push('N');
+                }
+                in_num = true;
+                last_ws = false;
+            }
+            c if c.is_whitespace() => {
+                in_num = false;
+                if !last_ws {
+                    out.push(' ');
+                }
+                last_ws = true;
+            }
+            c => {
+                in_num = false;
+                last_ws = false;
+                out.push(c);
+            }
+        }
+        if out.len() > 90 {
             break;
         }
     }
